@@ -701,8 +701,8 @@ Section Proofs.
       { unfold q_append in Eq. destruct (q_closed (sh_q sh)); [discriminate|].
         destruct (Nat.eqb _ bsz).
         - destruct (Nat.ltb _ nbq); [|discriminate]. inversion Eq; subst; simpl.
-          intros y. rewrite concat_app. simpl. rewrite !in_app_iff. simpl. rewrite !in_app_iff. simpl. tauto.
-        - inversion Eq; subst; simpl. intros y. rewrite !in_app_iff. simpl. tauto. }
+          intros y. rewrite ?concat_app. simpl. rewrite ?app_nil_r. rewrite ?in_app_iff. simpl. rewrite ?in_app_iff. simpl. tauto.
+        - inversion Eq; subst; simpl. intros y. rewrite ?in_app_iff. simpl. tauto. }
       split; simpl; auto; try discriminate.
       + intros r l H. destruct (K1 r l H) as [raw' [seg' [A B]]]. exists raw', seg'. split; auto. apply in_or_app; auto.
       + intros y H. apply prov_mono; auto.
@@ -719,8 +719,8 @@ Section Proofs.
       assert (Hb : forall y, In y b -> In y (fed s)).
       { intros y Hy. eapply (K3 sh); eauto. eapply nth_error_In; eauto.
         unfold phys, infl_list. rewrite Ei. apply in_or_app; auto. }
-      assert (Hl : forall oc y, In y (attempted (log s ++ [(b, oc)])) -> In y (fed s)).
-      { intros oc y. rewrite attempted_snoc. intros Hy. apply in_app_or in Hy. destruct Hy; auto. }
+      assert (Hl : forall oc' y, In y (attempted (log s ++ [(b, oc')])) -> In y (fed s)).
+      { intros oc' y. rewrite attempted_snoc. intros Hy. apply in_app_or in Hy. destruct Hy; auto. }
       destruct oc; (split; simpl; eauto);
         try (intros r l H; destruct (K1 r l H) as [raw' [seg' [A B]]]; exists raw', seg'; split; auto; apply in_or_app; auto);
         try (intros y H; apply prov_mono; auto);
@@ -748,4 +748,140 @@ Section Proofs.
       intros sh x Hin. apply repeat_spec in Hin. subst. simpl. tauto.
     - rewrite run_snoc. apply K_step; auto.
   Qed.
+
+  (* ---------------- the theorems ---------------- *)
+
+  Theorem no_panic : forall n0 ops, (0 < n0)%nat -> panicked (run n0 ops) = false.
+  Proof. intros. apply W_run; auto. Qed.
+
+  Lemma quiescent_outstanding : forall s r, quiescent s = true -> outstanding s r = [].
+  Proof.
+    intros s r H. unfold quiescent in H. apply andb_prop in H. destruct H as [Hp Hs].
+    unfold outstanding, pend_list, pipe_of. destruct (pend s); [discriminate|].
+    destruct (nth_error (shards s) _) as [sh|] eqn:E; auto.
+    rewrite forallb_forall in Hs. specialize (Hs sh (nth_error_In _ _ E)).
+    destruct (pipe sh); [reflexivity | discriminate].
+  Qed.
+
+  Theorem per_series_exact : forall n0 ops r, (0 < n0)%nat ->
+    let s := run n0 ops in
+    lossy s = false -> flushrace s = false ->
+    fr r (fed s) = fr r (delivered (log s)) ++ outstanding s r
+    /\ (quiescent s = true -> fr r (fed s) = fr r (delivered (log s))).
+  Proof.
+    intros n0 ops r Hn s HL HF. pose proof (Inv_run n0 ops Hn HL HF) as [Ha He].
+    assert (E : fr r (fed s) = fr r (delivered (log s)) ++ outstanding s r) by (apply (He r)).
+    split; auto. intros Hq. rewrite E, (quiescent_outstanding s r Hq), app_nil_r. reflexivity.
+  Qed.
+
+  Theorem one_shard_per_series : forall n0 ops, (0 < n0)%nat ->
+    let s := run n0 ops in
+    lossy s = false -> flushrace s = false ->
+    forall k sh x, nth_error (shards s) k = Some sh -> In x (pipe sh) ->
+                   shard_of (length (shards s)) (i_ref x) = k.
+  Proof.
+    intros n0 ops Hn s HL HF. pose proof (Inv_run n0 ops Hn HL HF) as [Ha He]. exact Ha.
+  Qed.
+
+  Theorem delivered_in_order_once : forall n0 ops, (0 < n0)%nat ->
+    let s := run n0 ops in
+    lossy s = false -> flushrace s = false ->
+    NoDup (map i_id (fed s))
+    /\ incl (delivered (log s)) (fed s)
+    /\ NoDup (map i_id (delivered (log s)))
+    /\ forall r, exists rest, fr r (fed s) = fr r (delivered (log s)) ++ rest.
+  Proof.
+    intros n0 ops Hn s HL HF.
+    assert (Hex : forall r, fr r (fed s) = fr r (delivered (log s)) ++ outstanding s r).
+    { intros r. apply (per_series_exact n0 ops r Hn HL HF). }
+    destruct (FedInv_run n0 ops) as [Hnd _]. fold s in Hnd.
+    assert (Hincl : incl (delivered (log s)) (fed s)).
+    { intros x Hx. assert (In x (fr (i_ref x) (fed s))).
+      { rewrite Hex. apply in_or_app. left. apply fr_In. auto. }
+      apply fr_In in H. tauto. }
+    split; [exact Hnd|]. split; [exact Hincl|]. split.
+    - apply NoDup_map_incl with (m := fed s); auto.
+      apply nodup_by_ref. intros r.
+      assert (NoDup (fr r (fed s))).
+      { unfold fr. apply NoDup_filter. eapply NoDup_map_inv; eauto. }
+      rewrite Hex in H. eapply NoDup_app_remove_r; eauto.
+    - intros r. eexists. apply Hex.
+  Qed.
+
+  Lemma all_ok_attempted : forall lg, all_ok lg = true -> attempted lg = delivered lg.
+  Proof.
+    induction lg as [|[b oc] lg IH]; simpl; auto.
+    destruct oc; simpl; try discriminate. intros H. unfold attempted, delivered in *. simpl.
+    f_equal. apply IH; auto.
+  Qed.
+
+  Theorem no_dup_without_failure : forall n0 ops, (0 < n0)%nat ->
+    let s := run n0 ops in
+    all_ok (log s) = true -> lossy s = false -> flushrace s = false ->
+    NoDup (map i_id (attempted (log s))).
+  Proof.
+    intros n0 ops Hn s Hok HL HF. rewrite all_ok_attempted; auto.
+    apply (delivered_in_order_once n0 ops Hn HL HF).
+  Qed.
+
+  Theorem sent_provenance : forall n0 ops x,
+    In x (attempted (log (run n0 ops))) ->
+    In x (fed (run n0 ops))
+    /\ exists raw seg, In (OStore (i_ref x) raw seg) ops /\ relab (add_ext ext raw) = Some (i_lbl x).
+  Proof.
+    intros n0 ops x Hx. destruct (K_run n0 ops) as [K1 K2 K3 K4 K5].
+    split; [apply K4; auto|]. apply K2. apply K4. auto.
+  Qed.
+
+  Theorem dropped_never_sent : forall n0 ops r,
+    (forall raw seg, In (OStore r raw seg) ops -> relab (add_ext ext raw) = None) ->
+    forall x, In x (attempted (log (run n0 ops))) -> i_ref x <> r.
+  Proof.
+    intros n0 ops r Hdrop x Hx E. destruct (sent_provenance n0 ops x Hx) as [_ [raw [seg [A B]]]].
+    rewrite E in A. rewrite (Hdrop _ _ A) in B. discriminate.
+  Qed.
+
+  Theorem append_accounting : forall n0 ops, let s := run n0 ops in
+    nextid s = Z.of_nat (length (fed s)) + n_old s + n_dropped s + n_unint s.
+  Proof. exact accounting_run. Qed.
 End Proofs.
+
+(* ---------------- witnesses ---------------- *)
+
+Definition relab_id (l : labels) : option labels := Some l.
+
+(* batch size 3, one channel slot, one shard: the timer fires between tryEnqueueingBatch and the
+   clearing of q.batch *)
+Definition ops_race : list op :=
+  [OStore 7 [(1, 1)] 0; OLookup 7 100 false; OEnqueue; OLookup 7 101 false; OEnqueue;
+   OSoft; OFlushPush 0; OTake 0; OSend 0 Ok; OTimer 0; OSend 0 Ok; OFlushClose 0; OTake 0].
+
+Lemma no_dup_unconditional_refuted :
+  exists ops, let s := run relab_id 3 1 [] 1 ops in
+    all_ok (log s) = true /\ lossy s = false /\ quiescent s = true
+    /\ map i_id (attempted (log s)) = [0; 1; 0; 1].
+Proof. exists ops_race. vm_compute. repeat split. Qed.
+
+(* two shards, batches of two: a recoverable failure retried in place, a reshard to three shards *)
+Definition ops_nv : list op :=
+  [OStore 1 [(1, 1)] 0; OStore 2 [(1, 2)] 0; OStore 9 [(1, 3); (5, 1)] 0;
+   OLookup 1 10 false; OEnqueue; OLookup 2 11 false; OEnqueue; OLookup 1 12 false; OEnqueue;
+   OLookup 9 13 false; OLookup 5 14 false; OLookup 1 15 true;
+   OTimer 1; OSend 1 Recoverable; OSend 1 Ok;
+   OSoft; OEnqueue; OFlushPush 0; OFlushPush 1; OFlushClose 0; OFlushClose 1;
+   OTake 0; OSend 0 Ok; OTake 0; OTake 1; OStart 3;
+   OLookup 1 16 false; OEnqueue; OTimer 1; OSend 1 Ok].
+
+(* relabelling drops the series carrying label 5 *)
+Definition relab_nv (l : labels) : option labels :=
+  match lget 5 l with Some _ => None | None => Some l end.
+
+Lemma nonvacuous :
+  let s := run relab_nv 2 1 [(4, 7)] 2 ops_nv in
+  lossy s = false /\ flushrace s = false /\ quiescent s = true /\ panicked s = false
+  /\ map i_id (delivered (log s)) = [0; 2; 1; 6]
+  /\ map i_id (attempted (log s)) = [0; 2; 0; 2; 1; 6]
+  /\ map i_lbl (delivered (log s)) = [[(1, 1); (4, 7)]; [(1, 1); (4, 7)]; [(1, 2); (4, 7)]; [(1, 1); (4, 7)]]
+  /\ length (shards s) = 3%nat
+  /\ (n_old s, n_dropped s, n_unint s) = (1, 1, 1).
+Proof. vm_compute. repeat split. Qed.
